@@ -36,7 +36,7 @@ Core ==
     <<SNext(<<>>)>>, <<SNext(<<I>>)>>,
     <<SWhile(Bin("lt", A, LI(2)))>>,
     <<SWend>>,
-    <<SEnd>>, <<SStop>> }
+    <<SEnd>>, <<SStop>>, <<SRem>> }
 More ==
   { <<SOnGosub(LI(3), <<L3>>), PS(<<111>>)>>,       \* out of range: falls through, pushes nothing
     <<SOnGoto(Un("neg", LI(1)), <<L2>>)>>,          \* negative: ILLEGAL FUNCTION CALL
@@ -47,7 +47,7 @@ More ==
     <<SNext(<<J>>)>>,
     <<STron>>, <<STroff>>,
     <<SLet(B, LI(1)), SLet(A, LI(0))>>,
-    <<SGoto(L2)>>, <<SGosub(L4)>>, <<SRem>> }
+    <<SGoto(L2)>>, <<SGosub(L4)>>, <<SData(<<MkI(1)>>)>> }
 Templates == IF Tset = 1 THEN Core ELSE Core \cup More
 
 VARIABLES m, prog, steps, cmds
